@@ -12,7 +12,7 @@ def main(chk, tier):
     parts = []
     # two builds of the library: with the constant-time test feature (as the other checks use it) and
     # the plain default configuration, so that a feature-conditional erasure cannot hide in either
-    for flavour, feats, sub in (("release", ["dudect"], None), ("release-default-features", None, "sim-default")):
+    for flavour, feats, sub in (("release", chk.FEATS, None), ("release-default-features", None, "sim-default")):
         binp, _ = chk.cargo_build("sim", "release", features=feats, target_sub=sub)
         if binp is None:
             chk.die("C16: harness build failed")
@@ -21,7 +21,7 @@ def main(chk, tier):
             os.remove(part)
         parts.append(part)
         r = chk.run_bin(binp, ["c16", "--tier", tier, "--seed", chk.SEED, "--flavour", flavour, "--evidence", part,
-                               "--replay-dir", os.path.join(chk.VERIF, "replays"), "--known", chk.KNOWN, "--scale", chk.SCALE])
+                               "--replay-dir", chk.replay_dir(), "--known", chk.KNOWN, "--scale", chk.SCALE])
         if r not in (0, 1):
             chk.die(f"C16: fipsim c16 ({flavour}) exited {r}")
         rc = max(rc, r)
@@ -45,7 +45,7 @@ def miri(chk):
     env = dict(chk.ENV, MIRIFLAGS="-Zmiri-disable-isolation", CARGO_TARGET_DIR=tdir)
     cmd = ["cargo", "+nightly", "miri", "run", "--release", "--offline", "--no-default-features", "--features", "ml-dsa-44", "--",
            "c16", "--tier", "quick", "--seed", chk.SEED, "--flavour", "miri", "--scale", "1", "--workers", "4", "--reduced", "1",
-           "--only-set", "ml-dsa-44", "--evidence", part, "--replay-dir", os.path.join(chk.VERIF, "replays"), "--known", chk.KNOWN]
+           "--only-set", "ml-dsa-44", "--evidence", part, "--replay-dir", chk.replay_dir(), "--known", chk.KNOWN]
     t0 = time.time()
     p = subprocess.run(cmd, cwd=chk.crate_dir("sim"), env=env, stdout=subprocess.PIPE, stderr=subprocess.STDOUT, text=True)
     out = {"exit": p.returncode, "wall_s": round(time.time() - t0, 1), "cmd": " ".join(cmd[:6]) + " ..."}
